@@ -65,3 +65,103 @@ Example C05_example_checker :
   distinct_b Nat.eqb ex_eqb [5; 0; 4; 3; 2; 1]%nat [2; 5; 0; 3; 4]%nat = false /\   (* two rows of one key *)
   distinct_b Nat.eqb ex_eqb [5; 0; 4; 3; 2; 1]%nat [5; 0; 4]%nat = false.          (* null-keyed row 2 lost *)
 Proof. vm_compute. auto. Qed.
+
+(* ================================================================================================
+   The frame level: QFrame.Distinct (Model/Aggregate.v; proofs in Proofs/AggregateProofs.v).  From here on
+   [cell], [ix], ... are those of Model/Frame.v.  [distinct_with dst] is Distinct with any function [dst] in
+   the place of grouper.Distinct; [distinct memhash rnd nulleq] is the instance with the hash table of
+   Model/Grouper.v.  [frame_ok f]: no error, columns of equal physical length with valid enum ranks, index
+   duplicate-free, inside the columns and at most 2^30 long. *)
+From QF Require Import Model.Frame Model.Filter Model.Ops Model.Aggregate Proofs.AggregateProofs.
+
+(* 6. every returned row is an unmodified input row: Distinct never touches the columns, whatever it returns *)
+Theorem C05_distinct_cols (dst : list coldata -> list nat -> outcome (list nat)) (f : frame)
+        (columns : list bytes) (out : frame) :
+  distinct_with dst f columns = Ok out -> cols out = cols f.
+Proof. exact (distinct_cols dst f columns out). Qed.
+Print Assumptions C05_distinct_cols.
+
+(* ... so a sub-index shows a sub-multiset of the input's rows under the same names and types *)
+Theorem C05_rows_unmodified (f : frame) (d : list nat) (t t' : table) :
+  incl d (ix f) -> abs f = Ok t -> abs (with_ix f d) = Ok t' ->
+  tnames t' = tnames t /\ ttypes t' = ttypes t /\ incl (trows t') (trows t).
+Proof. exact (with_ix_rows f d t t'). Qed.
+Print Assumptions C05_rows_unmodified.
+
+(* 7. zero rows: identity (NB even when a column is unknown: the length test comes first in the Go code);
+   error: passed on; unknown column on a frame with rows: Err; no columns given: all columns are keys *)
+Theorem C05_distinct_no_rows (dst : list coldata -> list nat -> outcome (list nat)) (f : frame) (columns : list bytes) :
+  ix f = [] -> distinct_with dst f columns = Ok f.
+Proof. exact (distinct_no_rows dst f columns). Qed.
+Print Assumptions C05_distinct_no_rows.
+
+Theorem C05_distinct_sticky (dst : list coldata -> list nat -> outcome (list nat)) (f : frame) (columns : list bytes) :
+  ferr f = true -> distinct_with dst f columns = Ok f.
+Proof. exact (distinct_sticky dst f columns). Qed.
+Print Assumptions C05_distinct_sticky.
+
+Theorem C05_distinct_unknown_column (dst : list coldata -> list nat -> outcome (list nat)) (f : frame)
+        (columns : list bytes) :
+  ferr f = false -> ix f <> [] -> forallb (contains f) columns = false ->
+  distinct_with dst f columns = Ok (with_err f).
+Proof. exact (distinct_unknown_column dst f columns). Qed.
+Print Assumptions C05_distinct_unknown_column.
+
+Theorem C05_distinct_all_columns (dst : list coldata -> list nat -> outcome (list nat)) (f : frame) :
+  distinct_with dst f [] = distinct_with dst f (col_names f).
+Proof. exact (distinct_all_columns dst f). Qed.
+Print Assumptions C05_distinct_all_columns.
+
+(* 8. the statement of the property on the model: Distinct(columns) on a well-formed frame, for every memhash and
+   every random source: no fault, no error, the input's columns, an index that is a correct choice of one row
+   per distinct key (distinct_ok: duplicate-free, rows of the input, pairwise unequal keys, every input row
+   represented), and every row of the result's table is a row of the input's table *)
+Definition C05_full_statement : Prop :=
+  forall (memhash : bytes -> N -> N) (rnd : nat -> nat -> N) (nulleq : bool) (f : frame) (columns : list bytes),
+  frame_ok f -> forallb (contains f) columns = true ->
+  (forall i, In i (ix f) -> Forall cell_wf (key_cells (key_columns f (distinct_columns f columns)) i)) ->
+  exists d, distinct memhash rnd nulleq f columns = Ok (with_ix f d) /\
+            distinct_ok (key_eqb nulleq (key_columns f (distinct_columns f columns))) (ix f) d /\
+            forall t t', abs f = Ok t -> abs (with_ix f d) = Ok t' ->
+                         tnames t' = tnames t /\ ttypes t' = ttypes t /\ incl (trows t') (trows t).
+
+Theorem C05_distinct_frame : C05_full_statement.
+Proof. exact distinct_frame_rows. Qed.
+Print Assumptions C05_distinct_frame.
+
+(* ---------------------------------------------------------------- the premises are satisfiable *)
+
+(* five rows (index 4 0 1 2 3): int key "k" = 1 2 1 2 1, and an enum "s" with a null *)
+Definition ex5_k : bytes := bs 1 0x6b.
+Definition ex5_s : bytes := bs 1 0x73.
+Definition ex5_f : frame := mkFrame
+  [ (ex5_k, ICol [1; 2; 1; 2; 1]%Z);
+    (ex5_s, ECol [0; 1; 0; 255; 1] [bs 1 0x78; bs 1 0x79] true) ] [4; 0; 1; 2; 3]%nat false.
+Definition ex5_memhash (b : bytes) (seed : N) : N :=
+  fold_left (fun acc x => N.land (acc * 33 + x + 1) 0xFFFFFFFFFFFF) b (seed + 5381).
+Definition ex5_rnd (_ _ : nat) : N := 0.
+
+Example C05_example_frame_premises :
+  frame_ok ex5_f /\ forallb (contains ex5_f) [ex5_k] = true /\
+  (forall i, In i (ix ex5_f) ->
+     Forall cell_wf (key_cells (key_columns ex5_f (distinct_columns ex5_f [ex5_k])) i)).
+Proof.
+  split; [|split].
+  - split; [reflexivity|]. split; [reflexivity|]. split; [|vm_compute; discriminate].
+    repeat constructor; simpl; intuition discriminate.
+  - reflexivity.
+  - intros i Hi. simpl in Hi.
+    repeat (destruct Hi as [<-|Hi];
+            [match goal with |- Forall cell_wf ?t => let v := eval vm_compute in t in change t with v end;
+             repeat constructor|]).
+    contradiction.
+Qed.
+
+(* by "k": one row per key value; by all columns: rows 0 and 2 (k = 1, s = "x") share a key, 4 of 5 rows
+   remain (the row with the null enum among them); unknown column "z"; zero rows with an unknown column *)
+Example C05_example_distinct :
+  distinct ex5_memhash ex5_rnd false ex5_f [ex5_k] = Ok (with_ix ex5_f [4; 1]%nat) /\
+  (do o <- distinct ex5_memhash ex5_rnd false ex5_f []; Ok (length (ix o))) = Ok 4%nat /\
+  distinct ex5_memhash ex5_rnd false ex5_f [bs 1 0x7a] = Ok (with_err ex5_f) /\
+  distinct ex5_memhash ex5_rnd false (with_ix ex5_f []) [bs 1 0x7a] = Ok (with_ix ex5_f []).
+Proof. vm_compute. repeat split. Qed.
